@@ -15,11 +15,11 @@ def parse_report(res, what):
 
 
 def validate(ctx, module, cfg, traces, what, jvms=None, env=None, dfs=False, must_complete=True, timeout=3600,
-             min_batch=4000):
+             min_batch=4000, extended=False):
     """Validate `traces` (list of lists of event dicts) against <module>/<cfg>.
     Returns list of (trace_index, line, clause) and the number of traces that ran to their last line."""
     if not traces:
-        return [], 0
+        return ([], 0, []) if extended else ([], 0)
     jvms = jvms or max(1, min(ctx.workers, (len(traces) + min_batch - 1) // min_batch))
     per = (len(traces) + jvms - 1) // jvms
     batches = [(k, traces[k:k + per]) for k in range(0, len(traces), per)]
@@ -40,7 +40,7 @@ def validate(ctx, module, cfg, traces, what, jvms=None, env=None, dfs=False, mus
         rep = parse_report(res, what)
         return off, len(b), res, rep
 
-    viols, completed = [], 0
+    viols, completed, nonconf = [], 0, []
     with ThreadPoolExecutor(max_workers=min(len(jobs), ctx.workers)) as ex:
         for off, n, res, rep in ex.map(run, jobs):
             ctx.tlc_runs.append({"module": module, "cfg": os.path.basename(cfg), "generated": res.generated,
@@ -49,11 +49,15 @@ def validate(ctx, module, cfg, traces, what, jvms=None, env=None, dfs=False, mus
             ctx.cov["transitions"] += res.generated
             completed += rep["completed"]
             for v in rep["violations"]:
-                viols.append((off + v[0] - 1, v[1], v[2]))
+                viols.append((off + v[0] - 1, v[1], v[2]) + ((v[3:],) if extended else ()))
+            for v in rep.get("nonconf", []):
+                nonconf.append((off + v[0] - 1, v[1], v[2]))
     if must_complete and completed != len(traces):
         raise MachineryError("%s: only %d of %d traces were consumed to their last line (trace spec blocked: "
                              "harness/spec mismatch)" % (what, completed, len(traces)))
     ctx.cov["traces_validated_against_impl"] += len(traces)
+    if extended:
+        return viols, completed, nonconf
     return viols, completed
 
 
